@@ -521,12 +521,13 @@ type testCase struct {
 }
 
 type caseOut struct {
-	lines  [][2]string // op line, impl output
-	fails  []failure
-	hung   int
-	sigs   []string
-	got    bool
-	dsched int
+	lines   [][2]string // op line, impl output
+	fails   []failure
+	hung    int
+	sigs    []string
+	got     bool
+	dsched  int
+	perfunc int
 }
 
 func (c *testCase) replay(upto int) string {
@@ -553,6 +554,10 @@ var hungTotal int32
 func runCase(c *testCase, leakCheck bool) caseOut {
 	var out caseOut
 	out.lines = append(out.lines, [2]string{c.tf.caseLine(c.id), fmt.Sprintf("ok chunks=%d size=%d valid=%v", len(c.tf.chunks), c.tf.size, c.tf.valid)})
+	pf := perFunction(c, hlib.NewRand(c.tf.seed^uint64(c.id)*0x9E3779B97F4A7C15))
+	out.lines = append(out.lines, pf.lines...)
+	out.fails = append(out.fails, pf.fails...)
+	out.perfunc = len(pf.lines)
 	for _, lv := range c.levels {
 		if lv > 1 && atomic.LoadInt32(&hungTotal) >= 3 {
 			continue
@@ -767,6 +772,7 @@ func main() {
 		if o.dsched > 0 {
 			r.Count("model-schedule:dsched-lines")
 		}
+		r.CountN("per-function:cseek+mgr+wrk-lines", o.perfunc)
 		for _, op := range c.ops {
 			r.Count("op:" + op.kind)
 		}
